@@ -28,6 +28,7 @@ const (
 	OpArmCompose  // next ComposeFrom returns an error
 	OpArmGateable // next ComposeFrom returns a Gateable composite
 	OpArmSend     // next Sender.Send returns an error
+	OpSetExp      // assign Filter.Expiration on the live filter (Tick field: 0 -> 0 (default 10s), 1 -> E/2, 2 -> E, 3 -> 2E)
 )
 
 // Tick sizes are expressed relative to the expiration E.
@@ -71,6 +72,8 @@ func (o Op) String() string {
 		return "armGateableComposite"
 	case OpArmSend:
 		return "armSendErr"
+	case OpSetExp:
+		return [...]string{"setExp(0=default)", "setExp(E/2)", "setExp(E)", "setExp(2E)"}[o.Tick%4]
 	}
 	return "?"
 }
@@ -106,6 +109,7 @@ type SendCall struct {
 
 type OpObs struct {
 	Op        Op
+	Exp       time.Duration // Filter.Expiration in force for groups opened by this op
 	T         time.Time
 	BrokerSet bool
 	Tok       int
@@ -221,10 +225,11 @@ func Run(cfg Config, ops []Op) *Obs {
 		f.Broker = snd
 	}
 	o := &Obs{Cfg: cfg, Exp: exp}
+	curExp := exp
 	ctx := context.Background()
 	tok := 0
 	for _, op := range ops {
-		oo := OpObs{Op: op, T: now, BrokerSet: f.Broker != nil, Tok: -1}
+		oo := OpObs{Op: op, T: now, BrokerSet: f.Broker != nil, Tok: -1, Exp: curExp}
 		r.composes, r.sends = nil, nil
 		switch op.K {
 		case OpEv, OpNonGate:
@@ -275,6 +280,17 @@ func Run(cfg Config, ops []Op) *Obs {
 			r.armGateable = true
 		case OpArmSend:
 			r.armSend = true
+		case OpSetExp:
+			switch op.Tick % 4 {
+			case 0:
+				f.Expiration, curExp = 0, gated.DefaultEventTimeout
+			case 1:
+				f.Expiration, curExp = exp/2, exp/2
+			case 2:
+				f.Expiration, curExp = exp, exp
+			case 3:
+				f.Expiration, curExp = 2*exp, 2*exp
+			}
 		}
 		oo.Composes, oo.Sends = r.composes, r.sends
 		o.Ops = append(o.Ops, oo)
